@@ -325,6 +325,7 @@ func (db *DB) memCompaction() {
 	stats.stopTimer()
 
 	db.logf("memdb@flush committed F·%d T·%v", len(rec.addedTables), stats.duration)
+	verifPoint("mcomp:commit-drop")
 
 	// Save compaction stats
 	for _, r := range rec.addedTables {
